@@ -17,6 +17,7 @@ mod faults;
 mod forge;
 mod guard;
 mod history;
+mod lean;
 mod iterdestroy;
 mod model;
 mod ops;
@@ -115,6 +116,8 @@ fn main() -> std::process::ExitCode {
         big::run_bigcap(args.u("mode", 0))
     } else if args.workload == "realoverflow" {
         big::run_realoverflow()
+    } else if args.workload == "lean" {
+        lean::run_lean(seed, shard, ops)
     } else if args.workload == "forge" {
         match world.as_str() {
             "main" => forge::run_forge::<worlds::wmain::WMain>(seed, shard, ops, small),
